@@ -10,7 +10,7 @@ from .c07 import hx, unhx
 
 MANIFEST = dict(
     technique="Lean 4 proof over Q (polynomial lists: evaluation, minutes->seconds conversion, formal derivative = analytic derivative (Mathlib HasDerivAt), Taylor shift, searchsorted selection on sorted span ends, merge loop covers every span and is tight: intervals run span start to span end, contain only spans and gaps <= tol, and are separated by > tol; range errors) + differential correspondence of PhasePredictor.from_polyco/__call__/f0/phasepol/time_at/intervals on generated tempo-style polyco texts against the model and an exact-Fraction evaluation of the tempo formula on the file's decimal strings",
-    level_text="proved: parsed entry evaluates to RPHASE + 60*DT*F0 + sum COEFF(i) DT^(i-1) for every coefficient count and sign; f0 and its derivatives are exact derivatives and commute with the minutes->seconds substitution; phasepol re-centring reproduces the prediction for all x; the searchsorted entry contains the time whenever any entry does (sorted equal spans); every span is covered by a merged interval and the merged intervals contain nothing but spans and sub-tolerance gaps (exact characterisation); outside all intervals -> ValueError; tied: generated files (1-12 entries, 3-15 coefficients, D/E exponents, RPHASE to 1e12, gaps/overlaps/touching spans) parsed by the real code and compared at 1e-8 cycle",
+    level_text="proved: parsed entry evaluates to RPHASE + 60*DT*F0 + sum COEFF(i) DT^(i-1) for every coefficient count and sign; f0 and its derivatives are exact derivatives and commute with the minutes->seconds substitution; phasepol re-centring reproduces the prediction for all x; the searchsorted entry contains the time whenever any entry does (sorted equal spans); a right-sided search does not (C08_right_search_fails: the closing edge before a gap), so the side literal regenerated from the source is pinned; every span is covered by a merged interval and the merged intervals contain nothing but spans and sub-tolerance gaps (exact characterisation); outside all intervals -> ValueError; tied: generated files (1-12 entries, 3-15 coefficients, D/E exponents, RPHASE to 1e12, gaps/overlaps/touching spans) parsed by the real code and compared at 1e-8 cycle",
     level_note="PARTIAL: float polynomial evaluation (validated at 1e-8 cycle) and scipy.optimize.root_scalar inside time_at are outside the model. Trusted: Lean kernel + Mathlib, hand model PbModel/Polyco.lean, astropy Time differences (the double dt the code derives is given to the model exactly)",
 )
 
